@@ -295,6 +295,95 @@ def isoKTensor (s : IsoSetup K) : Mat K :=
 
 end iso
 
+/-! ### orientation handling, continued: axes_check, crystal → Cartesian, round-off clean-up -/
+section orient
+variable [Add F] [Sub F] [Mul F] [Div F] [Neg F] [LE F] [DecidableLE F] [LT F] [DecidableLT F]
+
+def absF [Zero F] (v : F) : F := if v < 0 then -v else v
+
+/-- `numpy.allclose(a, b, atol, rtol)` for one entry: `|a - b| ≤ atol + rtol·|b|`. -/
+def closeTo [Zero F] (atol rtol a b : F) : Bool := decide (absF (a - b) ≤ atol + rtol * absF b)
+
+/-- `uaxes = (axes.T / norm(axes, axis=1)).T`; `norms` are the three row norms (`numpy.linalg.norm`, a parameter
+    with residual `normsᵢ² = Σⱼ axesᵢⱼ²`). -/
+def unitAxes (axes : Mat F) (norms : Vec F) : Mat F := fun i j => axes i j / norms i
+
+/-- `axes_check`: `allclose(u uᵀ, 1, atol=tol)` and `allclose(u₀ × u₁, u₂, atol=tol)` (numpy's default
+    `rtol = 1e-5` is the parameter `rtol`). -/
+def axesOrthOk [Zero F] [One F] (tol rtol : F) (u : Mat F) : Bool :=
+  fin3All fun i => fin3All fun j => closeTo tol rtol (dot (u i) (u j)) (kron i j)
+where fin3All (p : Fin 3 → Bool) : Bool := p 0 && p 1 && p 2
+
+def axesRightOk [Zero F] (tol rtol : F) (u : Mat F) : Bool :=
+  let c := cross (u 0) (u 1)
+  closeTo tol rtol (c 0) (u 2 0) && closeTo tol rtol (c 1) (u 2 1) && closeTo tol rtol (c 2) (u 2 2)
+
+/-- `miller.vector_crystal_to_cartesian(u, box)`: `u · vects` (rows of `vects` are the cell vectors). -/
+def crystalToCart (vects : Mat F) (u : Vec F) : Vec F := fun c => sum3 fun i => u i * vects i c
+
+/-- `C[abs(C / C.max()) < tol] = 0` of `ElasticConstants.transform` (strict, unlike `chop`). -/
+def chopLt [Zero F] (tol big v : F) : F := if absF (v / big) < tol then 0 else v
+
+def listMax (d : F) (l : List F) : F := l.foldl (fun a b => if a < b then b else a) d
+
+/-- all 81 entries of a 4-tensor / 9 of a matrix / 3 of a vector, in numpy `ravel` order. -/
+def ten4ToList (C : Ten4 F) : List F :=
+  [0, 1, 2].flatMap fun (i : Fin 3) => [0, 1, 2].flatMap fun (j : Fin 3) => [0, 1, 2].flatMap fun (k : Fin 3) =>
+    [0, 1, 2].map fun (l : Fin 3) => C i j k l
+
+/-- `ElasticConstants.transform(T)` followed by the `Cijkl` setter: the rotated, cleaned 6x6 array. -/
+def orientC [Zero F] (tol : F) (T : Mat F) (c : Fin 6 → Fin 6 → F) : Fin 6 → Fin 6 → F :=
+  let C' := rotC T (cijkl c)
+  let l := ten4ToList C'
+  let big := listMax (l.headD 0) l
+  toVoigt fun i j k l => chopLt tol big (C' i j k l)
+
+/-- `burgers = T · (burgers · vects)`, then entries with `|b/max|b|| ≤ tol` zeroed. -/
+def orientB [Zero F] (tol : F) (T vects : Mat F) (b : Vec F) : Vec F :=
+  let b' := matVec T (crystalToCart vects b)
+  let big := listMax (absF (b' 0)) [absF (b' 1), absF (b' 2)]
+  fun i => chop tol big (b' i)
+
+end orient
+
+/-! ### acceptance tests of `Stroh.solve` (the four `allclose` self-checks and the real-`K_tensor` test) -/
+section accept
+variable {K : Type} [Add K] [Sub K] [Mul K] [Div K] [Neg K] [Zero K] [One K] [NatCast K]
+  [LE K] [DecidableLE K] [LT K] [DecidableLT K]
+
+def Cx.normSq (z : Cx K) : K := z.re * z.re + z.im * z.im
+
+/-- `|z - w| ≤ atol + rtol·w` for a complex `z` and a real `w ≥ 0`, written without the square root. -/
+def closeToReal (atol rtol : K) (z : Cx K) (w : K) : Bool :=
+  decide (Cx.normSq (z - ⟨w, 0⟩) ≤ (atol + rtol * w) * (atol + rtol * w))
+
+def all3 (p : Fin 3 → Bool) : Bool := p 0 && p 1 && p 2
+def all6 (p : Fin 6 → Bool) : Bool := p 0 && p 1 && p 2 && p 3 && p 4 && p 5
+
+/-- the four assertions of `Stroh.solve` (`np.allclose(..., atol=tol)`, default `rtol` a parameter);
+    `sk` is `k**.5` (a parameter with residual `sk² = k`). -/
+def strohChecksOk (tol rtol : K) (μ : Fin 6 → Mode (Cx K)) (k sk : Fin 6 → Cx K) : Bool :=
+  (all3 fun i => all3 fun j => closeToReal tol rtol (chkAL μ k i j) (kron i j))
+  && (all3 fun i => all3 fun j => closeToReal tol rtol (chkAA μ k i j) 0)
+  && (all3 fun i => all3 fun j => closeToReal tol rtol (chkLL μ k i j) 0)
+  && (all6 fun s => all6 fun t => closeToReal tol rtol (chkST μ sk s t) (kron6 s t))
+
+/-- `np.real_if_close(K, tol)` returns a real array iff every `|Im| < tol`. -/
+def kIsReal (tol : K) (Kt : Mat (Cx K)) : Bool :=
+  all3 fun i => all3 fun j => decide (-tol < (Kt i j).im) && decide ((Kt i j).im < tol)
+
+/-- `Stroh.solve` accepts the eigen-solver output (does not raise `ValueError`). -/
+def strohAccept (tol rtol : K) (μ : Fin 6 → Mode (Cx K)) (k sk : Fin 6 → Cx K) : Bool :=
+  strohChecksOk tol rtol μ k sk && kIsReal tol (kTensor Cx.I μ k)
+
+/-- `K = real_if_close(K); K[isclose(K / K.max(), 0, atol=tol)] = 0` on the real parts. -/
+def kClean (tol : K) (Kt : Mat (Cx K)) : Mat K :=
+  let l := [0, 1, 2].flatMap fun (i : Fin 3) => [0, 1, 2].map fun (j : Fin 3) => (Kt i j).re
+  let big := listMax (l.headD 0) l
+  fun i j => chop tol big (Kt i j).re
+
+end accept
+
 /-! ### helpers for the driver -/
 
 def vecOfList [Zero F] (l : List F) : Vec F := fun i => l.getD i.val 0
@@ -304,14 +393,6 @@ def fin3 : List (Fin 3) := [0, 1, 2]
 def fin6 : List (Fin 6) := [0, 1, 2, 3, 4, 5]
 def vecToList (v : Vec F) : List F := fin3.map v
 def matToList (M : Mat F) : List F := fin3.flatMap fun i => fin3.map fun j => M i j
-/-- tabulate (the closures above recompute on every access). -/
-def memoVec [Zero F] (v : Vec F) : Vec F := vecOfList (vecToList v)
-def memoMat [Zero F] (M : Mat F) : Mat F := matOfList (matToList M)
-def memoTen4 [Zero F] (C : Ten4 F) : Ten4 F :=
-  let l := fin3.flatMap fun i => fin3.flatMap fun j => fin3.flatMap fun k => fin3.map fun l => C i j k l
-  let arr := l.toArray
-  fun i j k l => arr.getD (27 * i.val + 9 * j.val + 3 * k.val + l.val) 0
-
 /-- exact adjugate inverse of a 3x3 matrix (driver stand-in for `np.linalg.inv`; meaningful for `det ≠ 0`). -/
 def det3 [Add F] [Sub F] [Mul F] (M : Mat F) : F := dot (M 0) (cross (M 1) (M 2))
 def inv3 [Add F] [Sub F] [Mul F] [Div F] (M : Mat F) : Mat F :=
